@@ -84,7 +84,11 @@ def body_for(h):
 
 
 def body_nested(h):
-    prog = [b'10 FOR I%=1 TO A%: FOR J%=B% TO 1 STEP -1: N%=N%+1: NEXT J%: M%=M%+1: NEXT I%: E%=1']
+    if h.params.get('joint'):
+        # both loops closed by one NEXT J%,I% (no statement between the two ends)
+        prog = [b'10 FOR I%=1 TO A%: M%=M%+1: FOR J%=B% TO 1 STEP -1: N%=N%+1: NEXT J%,I%: E%=1']
+    else:
+        prog = [b'10 FOR I%=1 TO A%: FOR J%=B% TO 1 STEP -1: N%=N%+1: NEXT J%: M%=M%+1: NEXT I%: E%=1']
     impl = _setup(h, prog, [b'A%', b'B%', b'N%', b'M%', b'I%', b'J%', b'E%'])
     a, b = h.bytes('a', 2), h.bytes('b', 2)
     A, B = s16(a), s16(b)
@@ -177,6 +181,7 @@ def cases(tier):
     cs = [Case('for-int-up', body_for, params={'up': True, 'k': k}, timeout_s=3000, max_paths=400000),
           Case('for-int-down', body_for, params={'up': False, 'k': k}, timeout_s=3000, max_paths=400000),
           Case('for-nested', body_nested, timeout_s=3000),
+          Case('for-nested-joint-next', body_nested, params={'joint': True}, timeout_s=3000),
           Case('on-goto', body_on, params={'kind': 'goto'}),
           Case('on-gosub', body_on, params={'kind': 'gosub'}),
           Case('while', body_while), Case('gosub-nesting', body_gosub)]
